@@ -358,6 +358,9 @@ fn trace_event(x: &mut Exec, role: &str, step: &Value, ret: &str, snap: &str, ex
         }
     }
     o = o.raw("ret", ret).raw("snap", snap);
+    if let Some(t) = error_text(ret) {
+        o = o.str("rettext", &t);
+    }
     if let Some(e) = extra {
         o = o.fields(&e);
     }
@@ -369,6 +372,40 @@ fn trace_event(x: &mut Exec, role: &str, step: &Value, ret: &str, snap: &str, ex
     }
     let line = o.done();
     x.trace.as_mut().unwrap().line(&line);
+}
+
+/// Display text of the error a return value encodes (rebuilt from the logged fields through the crate's own
+/// `impl Display for Error`), None for Ok / panics / values outside the plain integer range.
+fn error_text(ret: &str) -> Option<String> {
+    use reed_solomon_simd::Error as E;
+    let v: Value = serde_json::from_str(ret).ok()?;
+    let name = v.get("err")?.as_str()?;
+    let f = |k: &str| -> Option<usize> {
+        let n = v.get(k)?.as_i64()?;
+        if n < 0 {
+            None
+        } else {
+            Some(n as usize)
+        }
+    };
+    let e = match name {
+        "DifferentShardSize" => E::DifferentShardSize { shard_bytes: f("shard_bytes")?, got: f("got")? },
+        "DuplicateOriginalShardIndex" => E::DuplicateOriginalShardIndex { index: f("index")? },
+        "DuplicateRecoveryShardIndex" => E::DuplicateRecoveryShardIndex { index: f("index")? },
+        "InvalidOriginalShardIndex" => E::InvalidOriginalShardIndex { original_count: f("original_count")?, index: f("index")? },
+        "InvalidRecoveryShardIndex" => E::InvalidRecoveryShardIndex { recovery_count: f("recovery_count")?, index: f("index")? },
+        "InvalidShardSize" => E::InvalidShardSize { shard_bytes: f("shard_bytes")? },
+        "NotEnoughShards" => E::NotEnoughShards {
+            original_count: f("original_count")?,
+            original_received_count: f("original_received_count")?,
+            recovery_received_count: f("recovery_received_count")?,
+        },
+        "TooFewOriginalShards" => E::TooFewOriginalShards { original_count: f("original_count")?, original_received_count: f("original_received_count")? },
+        "TooManyOriginalShards" => E::TooManyOriginalShards { original_count: f("original_count")? },
+        "UnsupportedShardCount" => E::UnsupportedShardCount { original_count: f("original_count")?, recovery_count: f("recovery_count")? },
+        _ => return None,
+    };
+    Some(e.to_string())
 }
 
 fn digest_items(items: &[(usize, Vec<u8>)]) -> String {
